@@ -30,7 +30,18 @@ TsVerdict(e) ==
        ELSE ""
   ELSE IF ~yes /\ e.aligned_ok THEN "aligned-without-start"
   ELSE ""
+\* Create(pid, WithPES(pts)): a packet whose payload is a PES start carrying exactly that PTS
+WithPesVerdict(e) ==
+  LET p == e.pkt IN
+  IF Len(p) # 188 THEN "harness-bad-length"
+  ELSE IF Get("sync", p) # 71 \/ Get("pid", p) # e.pid THEN "withpes-sync-or-pid"
+  ELSE IF ~HasPayload(p) \/ ~StartsPes(PayloadPart(p)) THEN "withpes-payload-is-not-a-pes-start"
+  ELSE IF e.hdr_err THEN "withpes-pes-header-not-found"
+  ELSE IF ~e.haspts \/ e.pts_back # e.pts THEN "withpes-pts-not-read-back"
+  ELSE IF ~HasPTS(PayloadPart(p)) \/ PTS(PayloadPart(p)) # e.pts THEN "withpes-pts-bytes"
+  ELSE ""
 Verdict(e) == IF e.panic # "" THEN "panic"
+              ELSE IF e.op = "withpes" THEN WithPesVerdict(e)
               ELSE IF e.op = "pes" THEN PesVerdict(e)
               ELSE IF e.op = "tspes" THEN TsVerdict(e)
               ELSE "harness-unknown-op"
